@@ -7,6 +7,7 @@ require (
 	cuelang.org/go v0.0.0
 	go.yaml.in/yaml/v3 v3.0.5
 	golang.org/x/text v0.40.0
+	golang.org/x/tools v0.48.0
 )
 
 require (
@@ -22,7 +23,6 @@ require (
 	github.com/rogpeppe/go-internal v1.16.0 // indirect
 	golang.org/x/net v0.57.0 // indirect
 	golang.org/x/sync v0.22.0 // indirect
-	golang.org/x/tools v0.48.0 // indirect
 	google.golang.org/protobuf v1.36.11 // indirect
 )
 
